@@ -152,6 +152,43 @@ Theorem written_repo_index_rebuildable : forall (enc : bytes -> bytes) (dec : by
 Proof. exact (fun enc dec hash clock tpe ops be ix index ra H1 H2 => written_repo_rebuildable_lemma enc dec H1 H2 hash clock tpe ops be ix index ra). Qed.
 Print Assumptions written_repo_index_rebuildable.
 
+(* The packer driven by its OWN should_save (count >= MAX_COUNT, size >= min(limit, MAX_SIZE), age -
+   the age test stays an oracle) is one of the runs packer_pack_wellformed quantifies over: every
+   pack it emits - in particular packs closed by the blob-count limit or by the size limit - is
+   well-formed, and from_file_inverts_packer applies to it. *)
+Theorem auto_packer_pack_wellformed : forall (enc : bytes -> bytes) tpe limit ops packs,
+  (forall x, length (enc x) = (length x + 32)%nat) ->
+  Forall wf_op ops -> packer_run_auto enc tpe limit ops = Ok packs ->
+  Forall (pack_wellformed enc tpe) packs /\
+  Forall (fun pk => N.of_nat (length (fst pk)) < U32) packs.
+Proof. exact (fun enc tpe limit ops packs H => auto_packer_wellformed_lemma enc H tpe limit ops packs). Qed.
+Print Assumptions auto_packer_pack_wellformed.
+
+(* Order of upload and registration, as found in the source (Extracted.WRITER_INDEXES_AFTER_WRITE):
+   whichever pack upload fails, every pack registered with the indexer - hence every pack a
+   persisted index file can list - was stored before. *)
+Theorem indexed_pack_is_written : forall (hash : bytes -> id) (clock : nat -> Z) packs fail_at,
+  let r := writer_run_src hash clock packs fail_at in
+  incl (map w_id (snd r)) (map fst (fst r)).
+Proof. exact indexed_pack_is_written_lemma. Qed.
+Print Assumptions indexed_pack_is_written.
+
+(* ... which is false for the other order (registration before the upload). *)
+Theorem index_before_write_refuted :
+  exists hash clock packs fail_at,
+    let r := writer_run_f false hash clock packs fail_at in
+    ~ incl (map w_id (snd r)) (map fst (fst r)).
+Proof. exact index_before_write_refuted_lemma. Qed.
+Print Assumptions index_before_write_refuted.
+
+(* The functions whose behaviour Model.v / Repack.v / Writer.v state have, in the current source,
+   exactly the control-flow shape they had when modelled (returns, ifs, `?`, matches per function;
+   three error returns in from_file; upload before registration).  Regenerated on every run. *)
+Theorem source_shape_is_modelled :
+  SOURCE_SHAPE = MODELLED_SHAPE /\ FROM_FILE_ERROR_RETURNS = 3 /\ WRITER_INDEXES_AFTER_WRITE = true.
+Proof. exact (conj eq_refl (conj eq_refl eq_refl)). Qed.
+Print Assumptions source_shape_is_modelled.
+
 (* PackHeader::from_file on a 3-byte file without size hint (what repair-index does for a
    truncated, unindexed pack): `pack_size - read_size` underflows; and a length field >= 2^32-4
    overflows `size_real + LENGTH_LEN`.  Both are panics of the overflow-checked build, for any key. *)
